@@ -791,7 +791,8 @@ theorem stepP (hU : UOkP env U) {s s' : State} {P : Nat} {dl : List Header} (hi 
     stored header is accepted by the active client if it extends the head, or if (after this update's prune pass) its
     stored ancestry meets the head's stored ancestry (`LiveC`: the branch forks at or above the prune line). -/
 theorem never_wedged_partial (hU : UOkP env U) {s : State} {P : Nat} {dl : List Header} (hi : InvP env U g0 s P dl) {now : Nat}
-    {p c : Header} (uc : U c) (sp : Stored env s p) (hv : ValidChild env s.chainId now p c) (hact : active s now = true)
+    {p c : Header} (uc : U c) (sp : Stored env s p) (hv : ValidChild env s.chainId now p c) (hrev : c.rev = p.rev)
+    (hact : active s now = true)
     (hl : ∀ s1, pruneStep s now = .ok s1 → env.hash s.head = c.parentHash ∨ LiveC (store env s1 c) c) :
     ∃ s', updateClient .fixed env now s c = .ok s' ∧ s'.head = c := by
   have hpo : parentOf s c = some p := by
@@ -821,7 +822,7 @@ theorem never_wedged_partial (hU : UOkP env U) {s : State} {P : Nat} {dl : List 
   obtain ⟨s3, h3⟩ := h3
   refine ⟨{ s3 with head := c, cons := aset s3.cons c.number { time := c.time, root := c.root } }, ?_, rfl⟩
   unfold updateClient
-  simp only [hact, Bool.not_true, checkValidity_complete hpo hv, hpr]
+  simp only [hact, Bool.not_true, checkValidity_complete hpo hv (fun _ => hrev), hpr]
   simp only [Bool.false_eq_true, ↓reduceIte, h3]
 
 /-- the condition is also necessary: an update accepted through `RestrictChain` had `LiveC` -/
@@ -898,7 +899,7 @@ theorem init_invP (hU : UOkP env U) {g : Header} (ug : U g) (chainId trusting : 
   have hc := (init_inv hU.base ug chainId trusting).core
   refine ⟨hc, ?_, Nat.le_refl _, ?_, ⟨g, ?_, Or.inr rfl⟩, ?_, ?_⟩
   · intro k h hk
-    simp only [initState, aget] at hk
+    simp only [initState, initStateR, aget] at hk
     split at hk
     · cases hk; exact Nat.le_refl _
     · cases hk
@@ -906,14 +907,14 @@ theorem init_invP (hU : UOkP env U) {g : Header} (ug : U g) (chainId trusting : 
   · show walkCur _ (g.number - g.number) g = some g
     simp [walkCur]
   · intro k v hk
-    simp only [initState, aget] at hk
+    simp only [initState, initStateR, aget] at hk
     split at hk
     · rename_i e; omega
     · cases hk
   · intro k h hk _
-    simp only [initState, aget] at hk
+    simp only [initState, initStateR, aget] at hk
     split at hk
-    · cases hk; simp [initState, aget]
+    · cases hk; simp [initState, initStateR, aget]
     · cases hk
 
 theorem reachP_inv (hU : UOkP env U) {g : Header} (ug : U g) {chainId trusting : Nat} {s : State}
@@ -928,11 +929,11 @@ theorem reachP_inv (hU : UOkP env U) {g : Header} (ug : U g) {chainId trusting :
 /-- **never_wedged across pruning** over all histories (statement of `never_wedged_partial` on reachable states) -/
 theorem never_wedged_pruned (hU : UOkP env U) {g : Header} (ug : U g) {chainId trusting : Nat} {s : State}
     (hr : ReachP env U g chainId trusting s) {now : Nat} {p c : Header} (uc : U c) (sp : Stored env s p)
-    (hv : ValidChild env s.chainId now p c) (hact : active s now = true)
+    (hv : ValidChild env s.chainId now p c) (hrev : c.rev = p.rev) (hact : active s now = true)
     (hl : ∀ s1, pruneStep s now = .ok s1 → env.hash s.head = c.parentHash ∨ LiveC (store env s1 c) c) :
     ∃ s', updateClient .fixed env now s c = .ok s' ∧ s'.head = c := by
   obtain ⟨P, dl, hi⟩ := reachP_inv hU ug hr
-  exact never_wedged_partial hU hi uc sp hv hact hl
+  exact never_wedged_partial hU hi uc sp hv hrev hact hl
 
 /-- the prune pass itself never wedges the client -/
 theorem prune_total (hU : UOkP env U) {g : Header} (ug : U g) {chainId trusting : Nat} {s : State}
@@ -957,6 +958,86 @@ theorem ancestry_roots_pruned (hU : UOkP env U) {g : Header} (ug : U g) {chainId
   exact ⟨a, ha, e2, by cases this; rfl⟩
 
 end
+
+/-! ### several clients, restarts, discarded executions -/
+
+theorem World.get_set_same (w : World) (i : Bool) (s : State) : (w.set i s).get i = some s := by
+  cases i <;> simp [World.get, World.set]
+
+theorem World.get_set_other (w : World) (i : Bool) (s : State) : (w.set i s).get (!i) = w.get (!i) := by
+  cases i <;> simp [World.get, World.set]
+
+/-- what an update of client `i` is: `updateClient` on that client's state -/
+theorem World.update_ok {v : Variant} {env : Env} {now : Nat} {w w' : World} {i : Bool} {h : Header}
+    (hu : World.update v env now w i h = .ok w') :
+    ∃ s s', w.get i = some s ∧ updateClient v env now s h = .ok s' ∧ w' = w.set i s' := by
+  unfold World.update at hu
+  cases hg : w.get i with
+  | none => simp [hg] at hu
+  | some s =>
+    simp only [hg] at hu
+    cases hc : updateClient v env now s h with
+    | err e => simp [hc] at hu
+    | panic e => simp [hc] at hu
+    | ok s' => simp only [hc, Outcome.ok.injEq] at hu; exact ⟨s, s', rfl, hc, hu.symm⟩
+
+/-- **frame**: an update of one client leaves the other client's store exactly as it was (verdicts on one client are
+    independent of the other's history) -/
+theorem frame {v : Variant} {env : Env} {now : Nat} {w w' : World} {i : Bool} {h : Header}
+    (hu : World.update v env now w i h = .ok w') : w'.get (!i) = w.get (!i) := by
+  obtain ⟨s, s', _, _, rfl⟩ := World.update_ok hu
+  exact World.get_set_other w i s'
+
+/-- **restart_identity**: export → import of the client module is the identity on everything the property talks about -/
+theorem restart_identity (w : World) : w.restart = w := rfl
+
+/-- an update executed on a dropped context changes nothing -/
+theorem discarded_identity (v : Variant) (env : Env) (now : Nat) (w : World) (i : Bool) (h : Header) :
+    World.discarded v env now w i h = w := by
+  unfold World.discarded; split; rfl
+
+/-- worlds reachable by creating the two clients, updating either of them, restarting the chain and running discarded
+    updates, in any interleaving -/
+inductive WReach (env : Env) (U : Header → Prop) : World → Prop
+  | empty : WReach env U { a := none, b := none }
+  | create {w : World} (i : Bool) (g : Header) (chainId trusting : Nat) : WReach env U w → U g →
+      WReach env U (w.set i (initState env chainId trusting g))
+  | update {w w' : World} {now : Nat} {i : Bool} {c : Header} : WReach env U w → U c →
+      World.update .fixed env now w i c = .ok w' → WReach env U w'
+  | restart {w : World} : WReach env U w → WReach env U w.restart
+  | discarded {w : World} (now : Nat) (i : Bool) (c : Header) : WReach env U w → WReach env U (World.discarded .fixed env now w i c)
+
+/-- every client of a reachable world is in a state reachable by accepted updates of that client alone: all the
+    per-client theorems (`accept_sound_reach`, `never_wedged_pruned`, `ancestry_roots_pruned`, `prune_total`) hold in
+    histories with a second client, restarts and discarded executions -/
+theorem wreach_client {env : Env} {U : Header → Prop} {w : World} (hw : WReach env U w) :
+    ∀ i s, w.get i = some s → ∃ g chainId trusting, U g ∧ ReachP env U g chainId trusting s := by
+  induction hw with
+  | empty => intro i s h; cases i <;> simp [World.get] at h
+  | @create w i g chainId trusting _ ug ih =>
+    intro j s h
+    by_cases e : j = i
+    · subst e
+      rw [World.get_set_same] at h; cases h
+      exact ⟨g, chainId, trusting, ug, ReachP.init⟩
+    · have : j = !i := by cases i <;> cases j <;> simp_all
+      subst this
+      rw [World.get_set_other] at h
+      exact ih _ _ h
+  | @update w w' now i c _ uc hu ih =>
+    intro j s h
+    obtain ⟨s0, s1, h0, h1, rfl⟩ := World.update_ok hu
+    by_cases e : j = i
+    · subst e
+      rw [World.get_set_same] at h; cases h
+      obtain ⟨g, chainId, trusting, ug, hr⟩ := ih _ _ h0
+      exact ⟨g, chainId, trusting, ug, ReachP.step hr uc h1⟩
+    · have : j = !i := by cases i <;> cases j <;> simp_all
+      subst this
+      rw [World.get_set_other] at h
+      exact ih _ _ h
+  | restart _ ih => intro i s h; exact ih i s h
+  | discarded now i c _ ih => intro j s h; rw [discarded_identity] at h; exact ih j s h
 
 /-! ### concrete witness: a fork below the prune line is rejected although its parent is still in the index -/
 
